@@ -53,7 +53,14 @@ def hooks(ctx, verdict):
                                         how='go test -tags verif -run TestVerifC12Hooks with harness/multiplex/c12_hooks_test.go'))
             break
     verdict.cov['hook_trials'] = len(got)
+    broken += close_race(ctx, verdict)
     return broken
+
+
+def close_race(ctx, verdict):
+    """simultaneous close of one stream from both ends with another stream open (harness/multiplex/c12_close_race_test.go)"""
+    import winlib
+    return winlib.c12_close_race(ctx, verdict)
 
 
 _corr = correspondence
@@ -66,3 +73,20 @@ def correspondence(ctx, verdict, pr):
 
 
 MANIFEST = {'technique': 'Coq invariant proofs over all label sequences (faults, closes, timers) of a session-pair model; model tied to multiplex.Session by lock-step differential execution under testing/synctest; schedule-point replays for the races inside a label', 'level_text': 'Theorems C12_teardown_complete, C12_nothing_left_blocked, C12_connections_closed, C12_fault_closes_sessions, C12_timer_only_when_idle and the invariant C12_wellformed_always are proved in Coq for EVERY sequence of labels (open/write/read/accept/close stream/close session/deliver on any connection/FIN/reset/timer tick, both sides, any number of connections, any connection picks) of the hand-written session-pair model coq/Model/Mux.v by induction with an explicit invariant. The model is tied to the code on every run: seeded scenarios are executed label by label on two real Sessions over harness-owned in-memory connections (virtual clock, quiescence barrier) and on the extracted model, every observable (frames on the wire, return values, blocked calls returning, connection closes, counters) is compared; an independent oracle checks prefix delivery, count = open streams at quiescent moments, no call left blocked, connections closed. The two races that live inside a label (OpenStream vs Close, inactivity check vs stream registration) are replayed with schedule points.', 'level_note': "Granularity: one label runs to quiescence; goroutine interleavings inside a label are covered only by the schedule-point replays, the race detector and C13's fine-grained model. The count invariant (activeStreamCount = open streams) is checked by the oracle at every state dump, not yet a theorem. Connections are FIFO and a reset is seen by both ends (property text). Trusted: Coq kernel, extraction, synctest.", 'design_ref': 'DESIGN.md section 6, C12'}
+
+
+# ---- concurrency windows (tools/props/winlib.py): simultaneous close from both ends
+TRUSTED = TRUSTED + ['schedule control of the window drivers: a goroutine is parked inside a call through a seam the harness owns (the replaceable sync.Locker of the stream\'s pipe; virtual clock of testing/synctest for the inactivity timer); "the other goroutine has returned or is blocked on a lock" is read off runtime.Stack wait states; outcomes are judged by the property predicate only']
+_replay_before_windows = replay
+
+
+def replay(ctx, verdict):
+    if ctx.replay.get('kind') == 'window':
+        import winlib
+        return winlib.replay(ctx, verdict)
+    return _replay_before_windows(ctx, verdict)
+
+
+def search(ctx, verdict, problems):
+    import winlib
+    return winlib.search(ctx, verdict, problems)
